@@ -107,6 +107,9 @@ type twinRun struct {
 	counters                  map[string]int
 	tAborted                  bool
 	v                         *harness.Violation
+	// file size (bytes) right before and after T, file end (pages) and limit before T
+	sizeBeforeT, sizeAfterT int64
+	endBeforeT, maxPagesT   uint
 }
 
 func runTwin(p *harness.Program, skipT bool) twinRun {
@@ -127,6 +130,11 @@ func runTwin(p *harness.Program, skipT bool) twinRun {
 		if it.Tag == "T" {
 			s := r.F.VerifState()
 			out.exactBeforeT = exactSnapshot(&s) + statsString(r)
+			out.sizeBeforeT = r.Disk.CurSize()
+			out.endBeforeT, out.maxPagesT = uint(s.DataEnd), s.MaxPages
+			if uint(s.MetaEnd) > out.endBeforeT {
+				out.endBeforeT = uint(s.MetaEnd)
+			}
 		}
 		if v := r.SafeRunItem(i, it); v != nil {
 			out.v = v
@@ -140,6 +148,7 @@ func runTwin(p *harness.Program, skipT bool) twinRun {
 		out.snapAfter[i] = userSnapshot(&s)
 		if it.Tag == "T" {
 			out.exactAfterT = exactSnapshot(&s) + statsString(r)
+			out.sizeAfterT = r.Disk.CurSize()
 		}
 	}
 	out.v = r.Finish()
@@ -216,6 +225,25 @@ func RunC07(p *harness.Program) Result {
 	if a.exactBeforeT != a.exactAfterT {
 		return Result{V: &harness.Violation{Clause: "abort-residue", Item: tIdx,
 			Msg: fmt.Sprintf("allocator state after the aborted transaction differs from the state before it: before {%s} after {%s}", a.exactBeforeT, a.exactAfterT)}, Counters: c}
+	}
+	// the file itself: on a bounded file the space an aborted transaction added to the file (flushed
+	// pages beyond the old end, overflow area) is given back: the file is not larger than before the
+	// transaction or than the committed end markers require (the writer is drained before T ends,
+	// so no write of T can extend the file after the rollback)
+	if a.maxPagesT > 0 {
+		limit := int64(a.endBeforeT) * int64(p.Cfg.PageSize)
+		if a.sizeBeforeT > limit {
+			limit = a.sizeBeforeT
+		}
+		if a.sizeAfterT > limit {
+			return Result{V: &harness.Violation{Clause: "abort-file-size", Item: tIdx,
+				Msg: fmt.Sprintf("after the aborted transaction the file has %d bytes; before it had %d bytes and the committed end marker is at page %d (%d bytes): the transaction left its pages in the file",
+					a.sizeAfterT, a.sizeBeforeT, a.endBeforeT, int64(a.endBeforeT)*int64(p.Cfg.PageSize))}, Counters: c}
+		}
+		c["abort-file-size-checked"]++
+		if a.sizeAfterT < a.sizeBeforeT {
+			c["abort-file-shrank"]++
+		}
 	}
 	c["abort-compared"]++
 	nt := has(c, "abort-alloc-past-end+free-own", "abort-after-flush", "abort-meta-grow", "commit-failed")
